@@ -102,6 +102,34 @@ func C05(c *core.Ctx) {
 		try("revoked", "leaf serial in the Root CA CRL only (not its issuer's CRL)", true, true, both(cleanP, crlSpec{pki.Root, []*big.Int{leafS}, next}), 1)
 		try("revoked", "intermediate serial in the PCK CRL only", true, true, both(crlSpec{pki.Inter, []*big.Int{interS}, next}, cleanR), 1)
 		try("revoked", "revoked leaf, revocation checking off", true, false, both(crlSpec{pki.Inter, []*big.Int{leafS}, next}, cleanR), 1)
+		// revocation entries dated after the verification time still count
+		future := func(signer *world.Cert, serials []*big.Int) []byte {
+			b, err := world.MakeCRL(r, signer, serials, baseTime.Add(10*day), next, 4)
+			if err != nil {
+				panic(err)
+			}
+			return b
+		}
+		try("revoked-future-dated", "leaf serial, revocation date after the verification time", true, true, func(resp map[string]world.Resp) {
+			set(pckURL, future(pki.Inter, []*big.Int{leafS}))(resp)
+		}, 0)
+		try("revoked-future-dated", "intermediate serial, revocation date after the verification time", true, true, func(resp map[string]world.Resp) {
+			set(rootURL, future(pki.Root, []*big.Int{interS}))(resp)
+		}, 0)
+		try("revoked-future-dated", "TCB signer serial (+ near miss), revocation date after the verification time", true, true, func(resp map[string]world.Resp) {
+			set(rootURL, future(pki.Root, []*big.Int{add(tcbS, 1), tcbS}))(resp)
+		}, 0)
+		// a forged PCK CRL that omits the revoked leaf, signed by a same-named foreign CA which is
+		// also what the (unauthenticated) issuer-chain header presents
+		for _, hdrRoot := range []*world.Cert{other.Root, pki.Root} {
+			hdrRoot := hdrRoot
+			try("forged-crl-and-header", "PCK CRL and its issuer-chain header both from a look-alike CA", true, true, func(resp map[string]world.Resp) {
+				x := resp[pckURL]
+				x.Body = mkCRL(crlSpec{other.Inter, unrelated(1), next})
+				x.Header = map[string][]string{world.PckCrlIssuerChainHeader: {pki.IssuerChainHeader(other.Inter, hdrRoot)}}
+				resp[pckURL] = x
+			}, 0)
+		}
 		// near misses
 		low := new(big.Int).SetBytes(leafS.Bytes()[len(leafS.Bytes())-8:])
 		prefix := new(big.Int).SetBytes(leafS.Bytes()[:len(leafS.Bytes())-1])
